@@ -1,0 +1,51 @@
+//go:build verif
+
+package httpserver
+
+import "github.com/tmpim/casket"
+
+// This file exists only in builds with the `verif` tag. It gives the
+// verification harness (/verif, property C15) access to the side-effect-free
+// stages of activateHTTPS, the `tls` parsing callback, which does not run in
+// validate-only loads and which otherwise obtains/renews certificates over
+// the network. Nothing here is reachable from a normal build.
+
+// VerifAutoHTTPS runs the three pure stages of activateHTTPS, in its order,
+// on cfgs and returns the resulting list (which includes the synthesised
+// plaintext redirect sites): markQualifiedForAutoHTTPS, enableAutoHTTPS
+// without loading certificates, makePlaintextRedirects.
+func VerifAutoHTTPS(cfgs []*SiteConfig) []*SiteConfig {
+	markQualifiedForAutoHTTPS(cfgs)
+	_ = enableAutoHTTPS(cfgs, false) // documented to return nil when not loading certificates
+	return makePlaintextRedirects(cfgs)
+}
+
+// VerifActivateHTTPS applies VerifAutoHTTPS to the site configs held by an
+// http server-type context and stores the result back, exactly as
+// activateHTTPS does, so that a following cctx.MakeServers() sees the
+// synthesised sites. It returns the context's site list.
+func VerifActivateHTTPS(cctx casket.Context) []*SiteConfig {
+	ctx := cctx.(*httpContext)
+	ctx.siteConfigs = VerifAutoHTTPS(ctx.siteConfigs)
+	return ctx.siteConfigs
+}
+
+// VerifSiteConfigs returns the site configs currently held by the context
+// (declared sites in Casketfile order, then synthesised ones).
+func VerifSiteConfigs(cctx casket.Context) []*SiteConfig {
+	return cctx.(*httpContext).siteConfigs
+}
+
+// VerifDiscard runs the shutdown callbacks of the throw-away instance behind
+// a validate-only load (they stop the certificate cache's maintenance
+// goroutines), so that a harness can perform many loads in one process.
+func VerifDiscard(cctx casket.Context) {
+	ctx := cctx.(*httpContext)
+	if ctx.instance == nil {
+		return
+	}
+	for _, f := range ctx.instance.OnShutdown {
+		_ = f()
+	}
+	ctx.instance.OnShutdown = nil
+}
